@@ -318,3 +318,11 @@ Theorem C13_code_checks_ownership_before_deleting : forall r : GenOrderCheck.rul
   In r GenOrderCheck.c13_rules -> GenOrderCheck.rule_holds r.
 Proof. exact GenOrderProofs.co_C13_rules_hold. Qed.
 Print Assumptions C13_code_checks_ownership_before_deleting.
+
+(* ---- the per-org virtual-table list is read and written only under globalTableAccessLock (guarded-by skeletons
+   regenerated from /repo on every run; rule C13.* of GenGuardCheck.gb_rules; initialisation functions listed). ---- *)
+From SigP Require GenGuardCheck GenGuardProofs.
+Theorem C13_code_virtual_table_list_touched_only_under_its_lock : forall r : GenGuardCheck.grule,
+  In r GenGuardCheck.c13_grules -> GenGuardCheck.grule_holds r.
+Proof. exact GenGuardProofs.gb_C13_rules_hold. Qed.
+Print Assumptions C13_code_virtual_table_list_touched_only_under_its_lock.
